@@ -293,7 +293,8 @@ fn plan(property: &str, tier: &str) -> Vec<(&'static str, &'static str, usize)> 
                 ]
             } else {
                 vec![
-                    ("bytes", "raw", 5),
+                    ("bytes", "raw", 6),
+                    ("pco", "dense", 6),
                     ("bytes", "raw+pre_w3", 5),
                     ("bytes", "raw+pre_h2", 5),
                     ("zerocopy", "raw+pre_h2", 4),
